@@ -428,9 +428,13 @@ def h_mem_take(ex, st, frame, t, nf, args, dty):
 
 
 def default_value(ex, st, like, ty):
-    o = Obj(ty)
-    o.tag = ("default", ty)
-    return o
+    hook = getattr(ex, "default_hook", None)
+    if hook is not None:
+        v = hook(ex, st, like, ty)
+        if v is not None:
+            return v
+    d = h_default(ex, st, None, None, "", [], ty if ty and ty != "?" else getattr(like, "ty", "?"))
+    return d[0][0]
 
 
 def h_mem_replace(ex, st, frame, t, nf, args, dty):
@@ -716,7 +720,11 @@ def find_future(ex, st, v):
         raise Unsupported("not a future: %r" % (v,))
 
 
-def coroutine_body(ex, ty):
+def coroutine_body(ex, ty, obj=None):
+    if obj is not None and getattr(obj, "tag", None) and obj.tag[0] == "coroutine_of":
+        b = ex.bodies.get(obj.tag[1] + "::{closure#0}")
+        if b is not None:
+            return b
     m = re.search(r"@([^ }]+:\d+:\d+: \d+:\d+)", ty)
     idx = getattr(ex, "_coroutine_index", None)
     if idx is None:
@@ -754,37 +762,332 @@ def poll_pending(dty):
 def h_future_poll(ex, st, frame, t, nf, args, dty):
     fut, where = find_future(ex, st, args[0])
     out_ty = output_type_of_future(dty)
+    if isinstance(fut, FutureV) and fut.kind == "lock":
+        g = lock_guard_for(ex, st, fut.args[0])
+        st.events.append(("await", fut.callee, fut.args, g))
+        return [(poll_ready(dty, g), None)]
     if isinstance(fut, FutureV):
-        st.events.append(("await", fut.callee, fut.args))
-        alts = []
-        hook = getattr(ex, "await_hook", None)
-        if hook is not None:
-            r = hook(ex, st, fut, out_ty, dty)
-            if r is not None:
-                return r
-        v = ex.fresh(out_ty, st, "aw")
-        alts.append((poll_ready(dty, v), None))
-        return alts
-    # a coroutine object of this crate
-    body = coroutine_body(ex, fut.ty)
-    if body is None:
-        raise Unsupported("coroutine body not found for " + fut.ty[:80])
-    from .pearl import canon_name
-    if ex.inline(body) or getattr(ex, "inline_all_coroutines", False):
-        pin = Obj("Pin<&mut %s>" % fut.ty)
-        pin.fields[(None, 0)] = where
-        ex.push_frame(st, body, [pin, args[1]], t.dest, t.targets.get("return"))
-        return "pushed"
-    st.events.append(("await", canon_name(body), None))
+        name, fargs = fut.callee, fut.args
+    else:
+        body = coroutine_body(ex, fut.ty, fut)
+        if body is None:
+            raise Unsupported("coroutine body not found for " + fut.ty[:80])
+        if ex.inline(body) or getattr(ex, "inline_all_coroutines", False):
+            pin = Obj("Pin<&mut %s>" % fut.ty)
+            pin.fields[(None, 0)] = where
+            ex.push_frame(st, body, [pin, args[1]], t.dest, t.targets.get("return"))
+            return "pushed"
+        name, fargs = ex.canon(body), [fut]
     hook = getattr(ex, "await_hook", None)
     if hook is not None:
-        r = hook(ex, st, fut, out_ty, dty)
+        r = hook(ex, st, name, fargs, out_ty, dty)
         if r is not None:
             return r
-    return [(poll_ready(dty, ex.fresh(out_ty, st, "aw")), None)]
+    v = ex.fresh(out_ty, st, "aw")
+    st.events.append(("await", name, fargs, v))
+    return [(poll_ready(dty, v), None)]
+
+
+def h_smart_deref(ex, st, frame, t, nf, args, dty):
+    """<Arc<T>/Rc<T>/Box<T>/ManuallyDrop<T> as Deref>::deref(&p): reference to the pointee, modelled as a pseudo-field"""
+    r = args[0]
+    if not isinstance(r, Ref):
+        raise Unsupported("smart deref of %r" % (r,))
+    inner = ex.read_path(st, r.cell, r.proj)
+    if isinstance(inner, Ref):
+        return [(Ref(inner.cell, inner.proj, inner.mut, dty), None)]
+    pt = dty.strip()
+    pt = re.sub(r"^&('\w+ )?(mut )?", "", pt)
+    return [(Ref(r.cell, tuple(r.proj) + (("field", 7001, pt),), r.mut, dty), None)]
+
+
+def _atomic_cell(ex, st, r, ty):
+    if not isinstance(r, Ref):
+        raise Unsupported("atomic op on %r" % (r,))
+    return Ref(r.cell, tuple(r.proj) + (("field", 7002, ty),), True, "&mut " + ty)
+
+
+def h_atomic(ex, st, frame, t, nf, args, dty):
+    op = nf.rsplit("::", 1)[1]
+    if op == "load":
+        c = _atomic_cell(ex, st, args[0], dty)
+        return [(ex.read_path(st, c.cell, c.proj), None)]
+    if op == "store":
+        v = args[1]
+        c = _atomic_cell(ex, st, args[0], v.ty)
+        ex.write_path(st, c.cell, c.proj, v)
+        return [(UNIT, None)]
+    if op in ("fetch_add", "fetch_sub", "fetch_max", "fetch_min", "fetch_or", "fetch_and", "swap"):
+        v = args[1]
+        c = _atomic_cell(ex, st, args[0], v.ty)
+        old = ex.read_path(st, c.cell, c.proj)
+        if v.ty == "bool":
+            new = {"fetch_or": z3.Or(old.t, v.t), "fetch_and": z3.And(old.t, v.t), "swap": v.t}[op]
+        else:
+            new = {"fetch_add": old.t + v.t, "fetch_sub": old.t - v.t,
+                   "fetch_max": z3.If(z3.UGT(v.t, old.t), v.t, old.t), "fetch_min": z3.If(z3.ULT(v.t, old.t), v.t, old.t),
+                   "fetch_or": old.t | v.t, "fetch_and": old.t & v.t, "swap": v.t}[op]
+        ex.write_path(st, c.cell, c.proj, Sym(new, old.ty))
+        return [(old, None)]
+    if op in ("compare_exchange", "compare_exchange_weak"):
+        cur, new = args[1], args[2]
+        c = _atomic_cell(ex, st, args[0], cur.ty)
+        old = ex.read_path(st, c.cell, c.proj)
+        eq = old.t == cur.t
+        return [(("write_then", c, new, ok(old, dty)), eq), (err(old, dty), z3.Not(eq))]
+    raise Unsupported("atomic op " + op)
+
+
+def h_async_lock(ex, st, frame, t, nf, args, dty):
+    """async_lock / tokio RwLock::{read, write, upgradable_read}: a future that yields a guard; the guard is a
+    reference to the protected data (pseudo-field 7000).  Contention, fairness and deadlock are outside the model."""
+    op = nf.rsplit("::", 1)[1]
+    lock = vec_ref_any(ex, st, args[0])
+    fut = FutureV("lock:" + op, [lock], None, "lock")
+    return [(fut, None)]
+
+
+def lock_guard_for(ex, st, lock):
+    lt = pointee(lock.ty) if lock.ty and lock.ty != "?" else "?"
+    ga = generic_args(lt) if lt != "?" else []
+    dt = ga[0] if ga else "?"
+    return Ref(lock.cell, tuple(lock.proj) + (("field", 7000, dt),), True, "&mut " + dt)
+
+
+def h_default(ex, st, frame, t, nf, args, dty):
+    d = dty.strip()
+    if d in INT_W:
+        return [(Sym(z3.BitVecVal(0, INT_W[d]), d), None)]
+    if d == "bool":
+        return [(Sym(z3.BoolVal(False), "bool"), None)]
+    bt = base_type(d).split("::")[-1]
+    if bt == "Vec":
+        ga = generic_args(d)
+        return [(VecV(ga[0] if ga else "?", ex.cap, usize(0)), None)]
+    if bt == "Option":
+        return [(none(d), None)]
+    o = Obj(d)
+    o.tag = ("default", d)
+    return [(o, None)]
+
+
+def h_lock_new(ex, st, frame, t, nf, args, dty):
+    o = Obj(dty)
+    o.fields[(None, 7000)] = args[0]
+    return [(o, None)]
+
+
+def h_lock_into_inner(ex, st, frame, t, nf, args, dty):
+    l = args[0]
+    if isinstance(l, Ref):
+        l = ex.read_path(st, l.cell, l.proj)
+    if not isinstance(l, Obj):
+        raise Unsupported("into_inner of %r" % (l,))
+    ga = generic_args(l.ty)
+    v = ex._get_field(st, l, None, 7000, ga[0] if ga else "?")
+    if base_type(dty).split("::")[-1] == "Result":
+        return [(ok(v, dty), None)]
+    return [(v, None)]
+
+
+def _opt_place(ex, st, r):
+    """r: reference to an Option; returns (ref, obj)"""
+    if not isinstance(r, Ref):
+        raise Unsupported("expected &Option, got %r" % (r,))
+    o = ex.read_path(st, r.cell, r.proj)
+    if isinstance(o, Ref):
+        return _opt_place(ex, st, o)
+    if not isinstance(o, Obj):
+        raise Unsupported("expected Option object, got %r" % (o,))
+    return r, o
+
+
+def h_option_as_ref(ex, st, frame, t, nf, args, dty):
+    r, o = _opt_place(ex, st, args[0])
+    is_some = split_enum(ex, st, o, 1)
+    ga = generic_args(dty)
+    inner = Ref(r.cell, tuple(r.proj) + (("downcast", "Some"), ("field", 0, pointee(ga[0]) if ga else "?")), nf.endswith("as_mut"), ga[0] if ga else "&?")
+    return [(some(inner, dty), is_some), (none(dty), z3.Not(is_some))]
+
+
+def h_option_take(ex, st, frame, t, nf, args, dty):
+    r, o = _opt_place(ex, st, args[0])
+    old = copy.deepcopy(o)
+    old.oid = o.oid
+    ex.write_path(st, r.cell, r.proj, none(o.ty))
+    return [(old, None)]
+
+
+def h_option_replace(ex, st, frame, t, nf, args, dty):
+    r, o = _opt_place(ex, st, args[0])
+    old = copy.deepcopy(o)
+    old.oid = o.oid
+    ex.write_path(st, r.cell, r.proj, some(args[1], o.ty))
+    return [(old, None)]
+
+
+def h_option_zip(ex, st, frame, t, nf, args, dty):
+    a, b = args[0], args[1]
+    both = z3.And(split_enum(ex, st, a, 1), split_enum(ex, st, b, 1))
+    alts = [(none(dty), z3.Not(both))]
+    if ex.feasible(st, both):
+        tup = Obj("(A, B)")
+        tup.fields[(None, 0)] = ex._get_field(st, a, "Some", 0, "?")
+        tup.fields[(None, 1)] = ex._get_field(st, b, "Some", 0, "?")
+        alts.append((some(tup, dty), both))
+    return alts
+
+
+def h_option_flatten(ex, st, frame, t, nf, args, dty):
+    a = args[0]
+    outer = split_enum(ex, st, a, 1)
+    alts = [(none(dty), z3.Not(outer))]
+    if ex.feasible(st, outer):
+        inner = ex._get_field(st, a, "Some", 0, dty)
+        if isinstance(inner, Ref):
+            inner = ex.read_path(st, inner.cell, inner.proj)
+        alts.append((inner, outer))
+    return alts
+
+
+def h_option_copied(ex, st, frame, t, nf, args, dty):
+    return h_option_cloned(ex, st, frame, t, nf, args, dty)
+
+
+def h_option_unwrap_or_default(ex, st, frame, t, nf, args, dty):
+    v = args[0]
+    is_some = split_enum(ex, st, v, 1)
+    d = h_default(ex, st, frame, t, nf, [], dty)[0][0]
+    alts = [(d, z3.Not(is_some))]
+    if ex.feasible(st, is_some):
+        alts.append((ex._get_field(st, v, "Some", 0, dty), is_some))
+    return alts
+
+
+def h_option_map_or(ex, st, frame, t, nf, args, dty):
+    v, dflt, f = args[0], args[1], args[2]
+    is_some = split_enum(ex, st, v, 1)
+    outs = []
+    if ex.feasible(st, z3.Not(is_some)):
+        s_none = st.fork()
+        s_none.pc.append(z3.Not(is_some))
+        ex.set_dest_and_goto(s_none, t, copy.deepcopy(dflt))
+        outs.append(s_none)
+    if ex.feasible(st, is_some):
+        st.pc.append(is_some)
+        payload = ex._get_field(st, v, "Some", 0, "?")
+        call_value(ex, st, frame, f, [payload], t.dest, t.targets.get("return"))
+        outs.append(st)
+    return ("states", outs)
+
+
+def h_slice_get(ex, st, frame, t, nf, args, dty):
+    r = vec_ref(ex, st, args[0])
+    v = as_vec(ex, st, r)
+    i = args[1]
+    if not isinstance(i, Sym):
+        raise Unsupported("slice::get with a range")
+    inb = z3.ULT(i.t, v.len.t)
+    ga = generic_args(dty)
+    ref = Ref(r.cell, tuple(r.proj) + (("index", i.t),), nf.endswith("get_mut"), ga[0] if ga else "&?")
+    return [(some(ref, dty), inb), (none(dty), z3.Not(inb))]
+
+
+def h_vec_last_mut(ex, st, frame, t, nf, args, dty):
+    return h_vec_last(ex, st, frame, t, nf, args, dty)
+
+
+def h_vec_pop(ex, st, frame, t, nf, args, dty):
+    r = vec_ref(ex, st, args[0])
+    v = as_vec(ex, st, r)
+    n = v.len.t
+    empty = n == BV64(0)
+    item = None
+    for k in range(v.cap - 1, -1, -1):
+        e = elem_at(ex, st, v, k)
+        item = e if item is None else ex.ite(n - 1 == BV64(k), e, item)
+    nv = VecV(v.elem_ty, v.cap, Sym(z3.If(empty, n, n - 1), "usize"), list(v.elems))
+    return [(("write_then", r, nv, some(item, dty)), z3.Not(empty)), (none(dty), empty)]
+
+
+def h_checked_sub(ex, st, frame, t, nf, args, dty):
+    a, b = args[0], args[1]
+    under = z3.ULT(a.t, b.t)
+    return [(none(dty), under), (some(Sym(a.t - b.t, a.ty), dty), z3.Not(under))]
+
+
+def h_checked_add(ex, st, frame, t, nf, args, dty):
+    a, b = args[0], args[1]
+    ov = z3.Not(z3.BVAddNoOverflow(a.t, b.t, False))
+    return [(none(dty), ov), (some(Sym(a.t + b.t, a.ty), dty), z3.Not(ov))]
+
+
+def h_saturating_sub(ex, st, frame, t, nf, args, dty):
+    a, b = args[0], args[1]
+    return [(Sym(z3.If(z3.ULT(a.t, b.t), z3.BitVecVal(0, a.t.size()), a.t - b.t), a.ty), None)]
+
+
+def h_cow_as_ref(ex, st, frame, t, nf, args, dty):
+    r = args[0]
+    c = deref_val(ex, st, r)
+    d = ex.get_discr(st, c).t
+    alts = []
+    if ex.feasible(st, d == BV64(0)):
+        alts.append((ex._get_field(st, c, "Borrowed", 0, dty), d == BV64(0)))
+    if ex.feasible(st, d == BV64(1)):
+        rr = vec_ref_any(ex, st, r)
+        alts.append((Ref(rr.cell, tuple(rr.proj) + (("downcast", "Owned"), ("field", 0, pointee(dty))), False, dty), d == BV64(1)))
+    return alts
+
+
+def h_cow_into_owned(ex, st, frame, t, nf, args, dty):
+    c = args[0]
+    d = ex.get_discr(st, c).t
+    alts = []
+    if ex.feasible(st, d == BV64(0)):
+        b = ex._get_field(st, c, "Borrowed", 0, "&" + dty)
+        alts.append((copy.deepcopy(deref_val(ex, st, b)), d == BV64(0)))
+    if ex.feasible(st, d == BV64(1)):
+        alts.append((ex._get_field(st, c, "Owned", 0, dty), d == BV64(1)))
+    return alts
+
+
+def h_mem_drop(ex, st, frame, t, nf, args, dty):
+    return [(UNIT, None)]
 
 
 STD_SUMMARIES = [
+    (r"^(std::option::)?Option::(as_ref|as_mut)$", h_option_as_ref),
+    (r"^(std::option::)?Option::take$", h_option_take),
+    (r"^(std::option::)?Option::replace$", h_option_replace),
+    (r"^(std::option::)?Option::zip$", h_option_zip),
+    (r"^(std::option::)?Option::flatten$", h_option_flatten),
+    (r"^(std::option::)?Option::copied$", h_option_copied),
+    (r"^(std::option::)?Option::unwrap_or_default$", h_option_unwrap_or_default),
+    (r"^(std::option::)?Option::map_or$", h_option_map_or),
+    (r"^<(std::option::)?Option as Clone>::clone$", h_clone),
+    (r"^core::slice::(<impl[^>]*>::)?(get|get_mut)$", h_slice_get),
+    (r"^core::slice::(<impl[^>]*>::)?last_mut$", h_vec_last_mut),
+    (r"^Vec::pop$", h_vec_pop),
+    (r"^Vec::with_capacity$", h_vec_new),
+    (r"^core::num::(<impl \w+>::)?checked_sub$", h_checked_sub),
+    (r"^core::num::(<impl \w+>::)?checked_add$", h_checked_add),
+    (r"^core::num::(<impl \w+>::)?saturating_sub$", h_saturating_sub),
+    (r"^<(std::borrow::)?Cow as AsRef<.*>>::as_ref$", h_cow_as_ref),
+    (r"^<(std::borrow::)?Cow as (std::ops::)?Deref>::deref$", h_cow_as_ref),
+    (r"^(std::borrow::)?Cow::into_owned$", h_cow_into_owned),
+    (r"^<(std::borrow::)?Cow as Clone>::clone$", h_clone),
+    (r"^std::mem::drop$", h_mem_drop),
+    (r"^<.* as Drop>::drop$", h_mem_drop),
+    (r"^std::ptr::drop_in_place$", h_mem_drop),
+    (r"^<(Vec|std::marker::PhantomData) as Clone>::clone$", h_clone),
+    (r"^(async_lock::|tokio::sync::|std::sync::)?(\w+::)*(RwLock|Mutex)::new$", h_lock_new),
+    (r"^(async_lock::|tokio::sync::|std::sync::)?(\w+::)*(RwLock|Mutex)::into_inner$", h_lock_into_inner),
+    (r"^<.* as (std::default::)?Default>::default$", h_default),
+    (r"^(async_lock::|tokio::sync::|async_lock::rwlock::|tokio::sync::rwlock::)?RwLock::(read|write|upgradable_read)$", h_async_lock),
+    (r"^<(async_lock::|tokio::sync::)?(\w+::)*RwLock(Write|Read|UpgradableRead|Mapped\w*)Guard as (std::ops::)?Deref(Mut)?>::deref(_mut)?$", h_guard_deref),
+    (r"(^|::)Atomic(U8|U16|U32|U64|Usize|Bool|I32|I64|Isize)?::(load|store|fetch_add|fetch_sub|fetch_max|fetch_min|fetch_or|fetch_and|swap|compare_exchange|compare_exchange_weak)$", h_atomic),
+    (r"^<(std::sync::|std::rc::|std::boxed::|alloc::\w+::)?(Arc|Rc|Box|ManuallyDrop) as (std::ops::)?Deref(Mut)?>::deref(_mut)?$", h_smart_deref),
     (r"^(std::option::)?Option::and_then$", h_option_and_then),
     (r"^(std::option::)?Option::map$", h_option_map),
     (r"^(std::option::)?Option::filter$", h_option_filter),
@@ -802,7 +1105,7 @@ STD_SUMMARIES = [
     (r"^<.* as (futures::|std::future::|core::future::)?Future>::poll$", h_future_poll),
     (r"^<(log::)?Level as PartialOrd<(log::)?LevelFilter>>::le$", h_log_disabled),
     (r"^(log::)?max_level$", h_fresh),
-    (r"RwLock::(write|read)$", h_lock),
+    (r"^(std::sync::)?(RwLock::(write|read)|Mutex::lock)$", h_lock),
     (r"^<std::sync::RwLock(Write|Read)Guard as Deref(Mut)?>::deref(_mut)?$", h_guard_deref),
     (r"^(std::result::)?Result::(expect|unwrap)$", h_expect),
     (r"^(std::option::)?Option::(expect|unwrap)$", h_expect),
